@@ -28,8 +28,8 @@ S = {
  'C16-2': ('C16', 'CompositionGraph::imports() lists explicit imports from the HashMap', 'two or more explicit imports', 'C16 (imports() part): VIOLATION imports-listing-order, confirmed in fresh processes'),
  'C02-1': ('C02', 'encoder caches embedded components by package name instead of package id', 'two versions of one package instantiated in one composition', 'C02 (two instantiations in a row): VIOLATION instantiation-wrong-package, confirmed natively (the encoded component embeds one component for two versions)'),
  'C02-2': ('C02', 'encode_names records core-module names in the component name map', 'a named node of core-module kind', 'C02 (encode_names): VIOLATION names-wrong-section, confirmed natively (name section read back with wasmparser)'),
- 'C08-1': ('C08', 'TypeConverter::find_owner follows only one alias hop', 'a `use` chain of three interfaces', None),
- 'C08-2': ('C08', 'TypeEncoder::use_aliases no longer clears the per-scope alias table', 'two interfaces in one scope with equally named, different types', None),
+ 'C08-1': ('C08', 'TypeConverter::find_owner follows only one alias hop', 'a `use` chain of three interfaces', 'C08 (find_owner rule): VIOLATION convert-find_owner (alias chain of length >= 2), and the WIT battery reproduces it natively: decode-used-type / decode-owner (uses of `api` no longer point at `base`)'),
+ 'C08-2': ('C08', 'TypeEncoder::use_aliases no longer clears the per-scope alias table', 'two interfaces in one scope with equally named, different types', 'NOT DETECTED: the change is in TypeEncoder (encoding.rs), the second half of C08, which is outside the claim (DESIGN.md 9.6)'),
  'C04-1': ('C04', 'inferred_instantiation_arg tries the last-segment match before the bound import/export name', 'local name differs from the bound name and a unique import ends in /<local>', 'C04 (inferred argument precedence): VIOLATION inferred-arg-precedence, two battery documents replayed through the real resolver'),
  'C04-2': ('C04', 'spread_instantiation_arg overwrites already bound arguments', 'a spread instance exporting a name bound by an earlier argument', 'C04 (spread rule): VIOLATION spread-rule, documents replayed through the real resolver'),
 }
